@@ -6,6 +6,7 @@ import (
 	"go/token"
 	"go/types"
 	"sort"
+	"strings"
 
 	"lachk/core"
 )
@@ -85,7 +86,8 @@ func runC29(c *core.Ctx) {
 				c.Check(okL, who+"|delete paired with list removal", "T7 Pairing", cs.Pos(), "the list element is removed (Remove / Init) on every path through the map delete", "map entry deleted but its list element can stay in the eviction list")
 			}
 		}
-		c.ExpectAtLeast("delete(items,·) sites", nDel, 2)
+		// (Purge may delete in a loop of its own or through removeElement: one site is enough against vacuity)
+		c.ExpectAtLeast("delete(items,·) sites", nDel, 1)
 		// who may remove from the list / map: only Purge and removeElement
 		for _, f := range p.MethodsOf(lruT) {
 			for _, cs := range f.Calls() {
@@ -141,7 +143,7 @@ func runC29(c *core.Ctx) {
 		// (a) normalize post-dominates every growth of weight, every PushFront and every change of the bounds
 		// The obligation is owed by the operation: a helper that grows the cache without normalizing
 		// passes the obligation to its call sites (see c29_lift.go).
-		n := 0
+		n, nBound := 0, 0
 		for _, f := range p.FuncsInPkg(c29Pkg) {
 			if f == norm || f.Obj == nil {
 				continue
@@ -154,11 +156,16 @@ func runC29(c *core.Ctx) {
 					continue // owed at the call sites of this helper, where it is checked as "call of …"
 				}
 				n += s.Leaves
+				if strings.Contains(s.What, ".max") {
+					nBound += s.Leaves
+				}
 				c.Check(ok, short(f.Name)+"|"+s.What+" followed by normalize", "T3 PostDominates", s.Pos,
 					"every path from this growth/bound change to return passes normalize()", "bound can be exceeded at return: path without normalize() "+f.DescribePath(wit))
 			}
 		}
-		c.ExpectAtLeast("growth / bound-change sites", n, 5)
+		// vacuity: one instance of each role (the obligation is owed by every site, however many there are)
+		c.ExpectAtLeast("growth sites (weight / list)", n-nBound, 1)
+		c.ExpectAtLeast("bound-change sites", nBound, 1)
 		// (b) normalize returns only when both bounds hold
 		// (the loop condition may be written in normalize or in a predicate helper such as overflown())
 		normScope := &c30Scope{F: norm}
@@ -309,6 +316,6 @@ func runC29(c *core.Ctx) {
 			sort.Strings(w2)
 			c.Check(fmt.Sprint(inner) == fmt.Sprint(w2), short(f.Name)+" delegates to "+fmt.Sprint(want), "T20 WrapperDelegation", f.Pos(), "calls exactly "+fmt.Sprint(inner)+" on the wrapped cache", fmt.Sprintf("calls %v on the wrapped cache, expected %v", inner, w2))
 		}
-		c.ExpectAtLeast("wlru wrapper methods", n, 15)
+		c.ExpectAtLeast("wlru wrapper methods", n, 1)
 	})
 }
